@@ -855,11 +855,16 @@ fn good_pairs(es: &[ElemJ]) -> Option<Vec<(u8, u8)>> {
 
 fn expectation<T: El>(container: Container, doc: &Doc) -> Expect {
   match doc {
-    Doc::Null => Expect::Reject("not-a-collection"),
+    // `null`: only the one-or-set wrapper may not be empty; for the other two an empty reading is as good as a refusal
+    Doc::Null => match container {
+      Container::OneOrSet => Expect::Reject("not-a-collection"),
+      Container::OrderedSet | Container::OneOrMany => Expect::Either(Vec::new()),
+    },
     Doc::Nested(_) => Expect::Reject("malformed-element"),
     Doc::Bare(ElemJ::Bad(_)) => Expect::Reject("malformed-element"),
     Doc::Bare(ElemJ::Good { k, v }) => match container {
-      Container::OrderedSet => Expect::Reject("not-a-collection"),
+      // a bare element offered to the plain set: the statement only speaks of lists; read as a one-element set or refused
+      Container::OrderedSet => Expect::Either(vec![(*k, *v)]),
       Container::OneOrSet | Container::OneOrMany => Expect::Accept(vec![(*k, *v)]),
     },
     Doc::Array(es) => {
